@@ -66,16 +66,34 @@ def keysStep (c : KeysCfg) (j : Json) : R Json := do
   | "key" =>
     let km ← field j "km" >>= kmOf
     let r := keygen c.consts c.func (← field j "ign" >>= ignOf) (← callOf j)
-    if km.flat then
-      match encodeFlat km c.le c.tyOf (fun t => c.fast.contains t) r.1 r.2 with
-      | .tup l => return Json.mkObj [("tup", jNats l)]
-      | .scalar v => return Json.mkObj [("scalar", Json.num (v : JsonNumber))]
-    else
-      let k := encrypt km c.le c.tyOf r.1 r.2
-      return Json.mkObj [("args", jNats k.args), ("kwds", jPairs k.kwds),
+    let jFlat : FlatKey Nat → Json := fun fk => match fk with
+      | .tup l => Json.mkObj [("tup", jNats l)]
+      | .scalar v => Json.mkObj [("scalar", Json.num (v : JsonNumber))]
+    let jNonFlat : NonFlatKey Nat → Json := fun k =>
+      Json.mkObj [("args", jNats k.args), ("kwds", jPairs k.kwds),
         ("types", match k.types with
           | some (a, b) => Json.arr #[jNats a, jNats b]
           | none => Json.null)]
+    -- the structured key of this keymap, and the object / type the inner keymap of a chain would receive
+    let (outerJ, xScalar) : Json × Option Nat :=
+      if km.flat then
+        match encodeFlat km c.le c.tyOf (fun t => c.fast.contains t) r.1 r.2 with
+        | .tup l => (jFlat (.tup l), none)
+        | .scalar v => (jFlat (.scalar v), some v)
+      else (jNonFlat (encrypt km c.le c.tyOf r.1 r.2), none)
+    match j.getObjVal? "inner" with
+    | .error _ => return outerJ
+    | .ok ij =>
+      let ikm ← kmOf ij
+      let tupTy ← natField j "tupTy"
+      -- placeholder 1000000 stands for the outer structured key when it is a tuple
+      let (x, xty) := match xScalar with
+        | some v => (v, c.tyOf v)
+        | none => (1000000, tupTy)
+      let inner := match chainInner ikm c.le xty (c.fast.contains xty) x with
+        | .inl fk => jFlat fk
+        | .inr nk => jNonFlat nk
+      return Json.mkObj [("outer", outerJ), ("inner", inner)]
   | "bind" =>
     let cl ← callOf j
     match bind (← natField j "self") c.func cl with
